@@ -286,6 +286,31 @@ def rule_term_kernels(ctx: Ctx, which: Optional[List[str]] = None, rule: str = "
 
         _run(ctx, rule, "PolyhedralTermList.evaluate", "evaluate: a fully assigned term is violated iff its residual constant is strictly negative (boundary satisfied)", k_evaluate_full)
 
+        def k_evaluate_all_terms():
+            # the verdict on one term never ends the work on the others: a satisfied (dropped) term in any position is
+            # followed by the substitution of the rest, and a violated term in any position raises
+            out = {}
+            for label, consts in (("sat-then-partial", (1, None)), ("partial-then-sat", (None, 1)), ("sat-then-violated", (1, -1)), ("sat-sat-partial", (0, 1, None))):
+                ta = TermAlg(prog)
+                terms = []
+                for i_, cv in enumerate(consts):
+                    if cv is None:
+                        terms.append(ta.term([x, y], "a"))
+                    else:
+                        terms.append(Rec("PolyhedralTerm", {"variables": DictV({x: num(1)}), "constant": num(cv)}))
+                tl = Rec("PolyhedralTermList", {"terms": ListV(terms)})
+                try:
+                    r = ta.method(tl, "evaluate", [DictV({x: num(0)})])
+                    out[label] = "%d kept" % len(r.f["terms"].items) if isinstance(r, Rec) else "?"
+                except Raised as e:
+                    out[label] = "raise " + e.cls
+            want = {"sat-then-partial": "1 kept", "partial-then-sat": "1 kept", "sat-then-violated": "raise ValueError", "sat-sat-partial": "1 kept"}
+            if out != want:
+                return "lists mixing satisfied, violated and partially assigned terms give %s, expected %s" % (out, want)
+            return None
+
+        _run(ctx, rule, "PolyhedralTermList.evaluate", "evaluate: every term is dealt with, whatever the verdict on the terms before it", k_evaluate_all_terms)
+
 
 # ---------------------------------------------------------------------------
 # Tactic 4 (substitution along a chain of context rows): Farkas certificate under sign assumptions
